@@ -8,8 +8,9 @@ Driver glue for the `Finger` domain.
         pathHex: the slash path relative to the project root;  dirLen: length of `<dir>/` for task directory 0, 1, …
         task := <nameHex> <labelHex> <method> <prompt> <dir> <pats> <pats> <k> <path>{k} <nCmds> (<k> (<path> <contentHex>){k} <need>){nCmds}
         pats := <n> (<neg> <k> <path>{k}){n}
-        step := I <task> <mode> <now> <yes> <fail> <kill> | W <path> <contentHex> <mtime> | T <path> <mtime>
+        step := I <task> <mode> <now> <yes> <fail> <kill> <cancelled> | W <path> <contentHex> <mtime> | T <path> <mtime>
               | D <path> | M <path> <path> | R <dir>
+      cancelled: 1 = the run is cancelled by a failing sibling while the task's status commands run (`Env.cancelled`);
       dir / fail / kill / need: 0 = none, k+1 = some k (need = the path a `task:` call's precondition tests);  method: 0 checksum 1 timestamp 2 none;
       mode: 0 run 1 force 2 dry 3 status 4 list-json 5 list 6 summary
     answer: one segment per step joined by " | ":
@@ -67,8 +68,8 @@ def mode : P Mode := do
 def stepP : P Step := do
   match ← tok with
   | "I" => do
-    let i ← nat; let m ← mode; let now ← nat; let yes ← bool; let f ← optNat; let k ← optNat
-    pure (.inv i m ⟨now, yes, f, k⟩)
+    let i ← nat; let m ← mode; let now ← nat; let yes ← bool; let f ← optNat; let k ← optNat; let c ← bool
+    pure (.inv i m ⟨now, yes, f, k, c⟩)
   | "W" => do let p ← nat; let c ← bytes; let mt ← nat; pure (.op (.write p c mt))
   | "T" => do let p ← nat; let mt ← nat; pure (.op (.touch p mt))
   | "D" => do let p ← nat; pure (.op (.delete p))
